@@ -4296,6 +4296,7 @@ def _efc_contact_update(cone_type: types.ConeType, flg_adhesion: bool):
 
     ref = solref_in[conid]
     pos_aref = pos
+    margin = includemargin
 
     if wp.static(IS_ELLIPTIC):
       if dimid > 0:
@@ -4315,6 +4316,7 @@ def _efc_contact_update(cone_type: types.ConeType, flg_adhesion: bool):
           invweight *= fri
 
         pos_aref = 0.0
+        margin = 0.0  # friction rows of an elliptic contact carry no position or margin
     else:
       if condim > 1:
         friction = friction_in[conid]
@@ -4339,7 +4341,7 @@ def _efc_contact_update(cone_type: types.ConeType, flg_adhesion: bool):
       invweight,
       ref,
       solimp_in[conid],
-      includemargin,
+      margin,
       Jqvel,
       0.0,
       efc_type,
@@ -4727,6 +4729,7 @@ def _efc_contact_update_flex(cone_type: types.ConeType, flg_adhesion: bool = Fal
 
     ref = solref_in[conid]
     pos_aref = pos
+    margin = includemargin
 
     if wp.static(IS_ELLIPTIC):
       if dimid > 0:
@@ -4746,6 +4749,7 @@ def _efc_contact_update_flex(cone_type: types.ConeType, flg_adhesion: bool = Fal
           invweight *= fri
 
         pos_aref = 0.0
+        margin = 0.0  # friction rows of an elliptic contact carry no position or margin
     else:
       if condim > 1:
         friction = friction_in[conid]
@@ -4770,7 +4774,7 @@ def _efc_contact_update_flex(cone_type: types.ConeType, flg_adhesion: bool = Fal
       invweight,
       ref,
       solimp_in[conid],
-      includemargin,
+      margin,
       Jqvel,
       0.0,
       efc_type,
